@@ -243,6 +243,29 @@ pub fn run(cfg: &Cfg, rep: &mut Report) {
     check_case(cfg, rep, &format!("rand:{}", i), &chain, &inj);
   }
 
+  // (iii-b) long scripts over a larger alphabet (up to 40 items over 12 values, parameters
+  // up to 12): operators that remember what they have seen / keep the last n items
+  let total = cfg.n(60_000, 4_000_000);
+  let mut rng = Rng::new(cfg.seed ^ 0xC03B);
+  for i in 0..total {
+    let mut r = rng.fork();
+    if !cfg.mine(i) {
+      continue;
+    }
+    let depth = 1 + r.below(2);
+    let mut ops: Vec<Op> = (0..depth).map(|_| random_single_op(&mut r, 12)).collect();
+    for (pos, op) in ops.iter_mut().enumerate() {
+      if let Op::Tap(id) = op {
+        *id = 50 + pos as u32;
+      }
+    }
+    let script = random_script(&mut r, 40, 12, true);
+    let (src, inj) = if r.chance(1, 3) { (Src::CreateSync(script.clone()), vec![]) } else { (Src::Hot(0), script.clone()) };
+    let chain = Chain::new(src, ops);
+    rep.count("long_script_cases", 1);
+    check_case(cfg, rep, &format!("long:{}", i), &chain, &inj);
+  }
+
   // (iv) static battery: the same chains written as ordinary typed (un-boxed) pipelines,
   // so that the un-erased instantiations of the operators are exercised too
   static_battery(cfg, rep);
